@@ -1,13 +1,720 @@
+// C18 — privileged native operations require the right witness (model_checking: exhaustive signer-set enumeration).
+//
+// 1. The table of privileged methods is extracted from the code (scan.go); a row that is neither in the scenario table
+//    below nor in the documented out-of-reach list aborts the run (HarnessError), so a newly added privileged method cannot
+//    silently escape.
+// 2. One seeded world holds, for every scenario, a state in which the call WOULD succeed with the right witness (shown:
+//    the canonical signer set succeeds, else HarnessError).
+// 3. For every scenario: every signer subset (size <= 3) of {operator m-of-n entry, operator keys with a wrong m, a strict
+//    subset of the validators as m'-of-n', the named owner, a validator single key, an unrelated key} and the empty set.
+//    Every transaction carries REAL signatures, first passes core/validation.VerifyTransaction (pool admission), is then
+//    executed (a) as the verified object and (b) re-decoded from its bytes (what a node executing a block sees).
+//    Oracle (implication): success => required address in the set of addresses derived, independently, from the signer
+//    entries the driver put into the transaction (or the required address is the immediately calling contract).
+// 4. Invalid-signature variants of the canonical transaction must die in VerifyTransaction.
+// 5. Calling-contract rule: two probe contracts registered in native.Contracts relay NativeCall; a witness check may pass for
+//    the IMMEDIATE caller only, never for an outer caller, the callee itself or the empty address.
+// 6. commitDpos escape hatch on both sides of MaxBlockChangeView; operator scenarios again after an epoch change (the
+//    stale operator entry must fail).
 package main
 
 import (
+	"encoding/hex"
 	"fmt"
+	"math/big"
+	"os"
+	"sort"
+	"strings"
+
+	"github.com/polynetwork/poly/common"
+	"github.com/polynetwork/poly/core/types"
+	"github.com/polynetwork/poly/core/validation"
+	ontErrors "github.com/polynetwork/poly/errors"
+	_ "github.com/polynetwork/poly/native/service"
+	ccmcom "github.com/polynetwork/poly/native/service/cross_chain_manager/common"
+	"github.com/polynetwork/poly/native/service/governance/neo3_state_manager"
+	"github.com/polynetwork/poly/native/service/governance/node_manager"
+	"github.com/polynetwork/poly/native/service/governance/relayer_manager"
+	"github.com/polynetwork/poly/native/service/governance/side_chain_manager"
+	"github.com/polynetwork/poly/native/service/governance/signature_manager"
+	hscommon "github.com/polynetwork/poly/native/service/header_sync/common"
+	"github.com/polynetwork/poly/native/service/utils"
+	"verif.local/engine/ev"
+	"verif.local/engine/lib/mapworld"
+	"verif.local/engine/polyenv"
 )
 
-func main() {
-	rows, routers := scanPrivileged()
-	for _, r := range rows {
-		fmt.Println(r.ID(), r.Sinks)
+const ts = 1000
+
+var contractAddr = map[string]common.Address{
+	"SideChainManagerContractAddress":  utils.SideChainManagerContractAddress,
+	"HeaderSyncContractAddress":        utils.HeaderSyncContractAddress,
+	"CrossChainManagerContractAddress": utils.CrossChainManagerContractAddress,
+	"NodeManagerContractAddress":       utils.NodeManagerContractAddress,
+	"RelayerManagerContractAddress":    utils.RelayerManagerContractAddress,
+	"Neo3StateManagerContractAddress":  utils.Neo3StateManagerContractAddress,
+	"SignatureManagerContractAddress":  utils.SignatureManagerContractAddress,
+	"ReplenishContractAddress":         utils.ReplenishContractAddress,
+}
+
+func ser(f func(*common.ZeroCopySink)) []byte {
+	s := common.NewZeroCopySink(nil)
+	f(s)
+	return s.Bytes()
+}
+
+// scenario: one privileged call in the seeded world.
+type scenario struct {
+	ID       string // scan row id (+ "#variant")
+	Contract common.Address
+	Method   string
+	Kind     string                             // "operator" | "owner" | "open" (no witness required: escape hatch past the boundary)
+	Owner    string                             // owner kind: which account is the named owner: "O1" (free) or "V1" (must be a consensus validator) or a fixed account name
+	Free     bool                               // the named owner may be ANY address (then the calling-contract cases are run too)
+	Args     func(owner common.Address) []byte // call arguments naming `owner` where the method names one
+	Height   uint32
+}
+
+type env struct {
+	r      *ev.Run
+	vals   []*polyenv.Acct
+	accts  map[string]*polyenv.Acct
+	base   polyenv.Dump // seeded world, consensus = genesis validators
+	epoch2 polyenv.Dump // same after an epoch change: consensus = validators + C5
+	cons2  []*polyenv.Acct
+	nonce  uint32
+	routes []routerSpec
+}
+
+func (e *env) tx(contract common.Address, method string, args []byte, signers ...polyenv.Signer) *types.Transaction {
+	e.nonce++
+	return polyenv.Tx(contract, method, args, e.nonce, signers...)
+}
+
+// must: seed-world transactions have to succeed (harness error otherwise).
+func (e *env) must(w *mapworld.World, what string, h uint32, t *types.Transaction) {
+	if res := w.Exec(t, h, ts); !res.OK {
+		e.r.HarnessError("seeding the world failed at %q: %v", what, res.Err)
 	}
-	fmt.Println(routers)
+}
+
+const (
+	chPending  = 901 // registration requested, not approved
+	chUpdate   = 902 // registered (owner O1): updateSideChain
+	chUpdReq   = 903 // registered + update requested: approveUpdateSideChain
+	chQuit     = 904 // registered (owner O1): quitSideChain
+	chQuitReq  = 905 // registered + quit requested: approveQuitSideChain
+	chNew      = 906 // unused id: registerSideChain
+	chVote     = 950 // router 0 (consensus vote)
+	chRipple   = 951 // router 23 (ripple), ExtraInfo.Operator = O1
+	chFee      = 952 // plain chain for updateFee / black / white
+	approveIDs = 0
+)
+
+func (e *env) sideChainArgs(owner common.Address, id, router uint64, extra []byte) []byte {
+	p := &side_chain_manager.RegisterSideChainParam{Address: owner, ChainId: id, Router: router, Name: fmt.Sprintf("chain%d", id),
+		BlocksToWait: 1, CCMCAddress: []byte{0xcc, byte(id)}, ExtraInfo: extra}
+	s := common.NewZeroCopySink(nil)
+	if err := p.Serialization(s); err != nil {
+		panic(err)
+	}
+	return s.Bytes()
+}
+
+func chainidArgs(id uint64, a common.Address) []byte {
+	return ser(func(s *common.ZeroCopySink) { (&side_chain_manager.ChainidParam{Chainid: id, Address: a}).Serialization(s) })
+}
+
+func peerArgs(key string, a common.Address) []byte {
+	return ser(func(s *common.ZeroCopySink) { (&node_manager.PeerParam{PeerPubkey: key, Address: a}).Serialization(s) })
+}
+
+func (e *env) registerChain(w *mapworld.World, id, router uint64, extra []byte) {
+	SCM := utils.SideChainManagerContractAddress
+	o1 := e.accts["O1"]
+	e.must(w, fmt.Sprintf("registerSideChain %d", id), 1, e.tx(SCM, side_chain_manager.REGISTER_SIDE_CHAIN, e.sideChainArgs(o1.Addr, id, router, extra), polyenv.Single(o1)))
+	for _, v := range e.vals[:3] {
+		e.must(w, fmt.Sprintf("approveRegisterSideChain %d", id), 1, e.tx(SCM, side_chain_manager.APPROVE_REGISTER_SIDE_CHAIN, chainidArgs(id, v.Addr), polyenv.Single(v)))
+	}
+}
+
+// seed builds the world in which every scenario's call would succeed with the right witness.
+func (e *env) seed() {
+	w := mapworld.New()
+	w.Genesis(e.vals)
+	NM, SCM, RM, SVM := utils.NodeManagerContractAddress, utils.SideChainManagerContractAddress, utils.RelayerManagerContractAddress, utils.Neo3StateManagerContractAddress
+	o1 := e.accts["O1"]
+	// side chains: one per header-sync router, plus the governance scenarios
+	for _, rs := range e.routes {
+		e.registerChain(w, rs.ChainID, rs.Router, rs.ExtraInfo)
+	}
+	for _, id := range []uint64{chUpdate, chUpdReq, chQuit, chQuitReq, chFee} {
+		e.registerChain(w, id, utils.ETH_ROUTER, nil)
+	}
+	e.registerChain(w, chVote, utils.VOTE_ROUTER, nil)
+	e.registerChain(w, chRipple, utils.RIPPLE_ROUTER, ser(func(s *common.ZeroCopySink) {
+		(&side_chain_manager.RippleExtraInfo{Operator: o1.Addr, Sequence: 1, Quorum: 1, SignerNum: 1, Pks: [][]byte{{2}}, ReserveAmount: big.NewInt(1)}).Serialization(s)
+	}))
+	e.must(w, "registerSideChain pending", 1, e.tx(SCM, side_chain_manager.REGISTER_SIDE_CHAIN, e.sideChainArgs(o1.Addr, chPending, utils.ETH_ROUTER, nil), polyenv.Single(o1)))
+	e.must(w, "updateSideChain request", 1, e.tx(SCM, side_chain_manager.UPDATE_SIDE_CHAIN, e.sideChainArgs(o1.Addr, chUpdReq, utils.ETH_ROUTER, []byte{1}), polyenv.Single(o1)))
+	e.must(w, "quitSideChain request", 1, e.tx(SCM, side_chain_manager.QUIT_SIDE_CHAIN, chainidArgs(chQuitReq, o1.Addr), polyenv.Single(o1)))
+	// node manager: C2 applied; C3 candidate in the pool (owner C3); C4 in the pool and black-listed
+	reg := func(c *polyenv.Acct) {
+		e.must(w, "registerCandidate", 1, e.tx(NM, node_manager.REGISTER_CANDIDATE, ser(func(s *common.ZeroCopySink) {
+			(&node_manager.RegisterPeerParam{PeerPubkey: c.PubHex, Address: c.Addr}).Serialization(s)
+		}), polyenv.Single(c)))
+	}
+	appr := func(c *polyenv.Acct) {
+		for _, v := range e.vals[:3] {
+			e.must(w, "approveCandidate", 1, e.tx(NM, node_manager.APPROVE_CANDIDATE, peerArgs(c.PubHex, v.Addr), polyenv.Single(v)))
+		}
+	}
+	reg(e.accts["C2"])
+	reg(e.accts["C3"])
+	appr(e.accts["C3"])
+	reg(e.accts["C4"])
+	appr(e.accts["C4"])
+	for _, v := range e.vals[:3] {
+		e.must(w, "blackNode C4", 1, e.tx(NM, node_manager.BLACK_NODE, ser(func(s *common.ZeroCopySink) {
+			(&node_manager.PeerListParam{PeerPubkeyList: []string{e.accts["C4"].PubHex}, Address: v.Addr}).Serialization(s)
+		}), polyenv.Single(v)))
+	}
+	// relayers: request 0 pending; R2 registered and removal request 0 pending
+	rl := func(list []common.Address, a common.Address) []byte {
+		return ser(func(s *common.ZeroCopySink) { (&relayer_manager.RelayerListParam{AddressList: list, Address: a}).Serialization(s) })
+	}
+	e.must(w, "registerRelayer", 1, e.tx(RM, relayer_manager.REGISTER_RELAYER, rl([]common.Address{e.accts["R1"].Addr}, o1.Addr), polyenv.Single(o1)))
+	e.must(w, "removeRelayer", 1, e.tx(RM, relayer_manager.REMOVE_RELAYER, rl([]common.Address{e.accts["R1"].Addr}, o1.Addr), polyenv.Single(o1)))
+	// neo3 state validators: request 0 pending, removal request 0 pending
+	svl := func(a common.Address) []byte {
+		return ser(func(s *common.ZeroCopySink) {
+			(&neo3_state_manager.StateValidatorListParam{StateValidators: []string{"02" + strings.Repeat("11", 32)}, Address: a}).Serialization(s)
+		})
+	}
+	e.must(w, "registerStateValidator", 1, e.tx(SVM, neo3_state_manager.REGISTER_STATE_VALIDATOR, svl(o1.Addr), polyenv.Single(o1)))
+	e.must(w, "removeStateValidator", 1, e.tx(SVM, neo3_state_manager.REMOVE_STATE_VALIDATOR, svl(o1.Addr), polyenv.Single(o1)))
+	e.base = w.Dump()
+	// epoch 2: C5 becomes a consensus member -> the operator address changes
+	c5 := e.accts["C5"]
+	reg(c5)
+	appr(c5)
+	e.must(w, "commitDpos", 5, e.tx(NM, node_manager.COMMIT_DPOS, nil, polyenv.Multi(e.vals)))
+	e.epoch2 = w.Dump()
+	e.cons2 = append(append([]*polyenv.Acct{}, e.vals...), e.accts["C3"], c5)
+}
+
+func (e *env) scenarios() []scenario {
+	NM, SCM, RM, SVM := utils.NodeManagerContractAddress, utils.SideChainManagerContractAddress, utils.RelayerManagerContractAddress, utils.Neo3StateManagerContractAddress
+	SM, CCM, HS := utils.SignatureManagerContractAddress, utils.CrossChainManagerContractAddress, utils.HeaderSyncContractAddress
+	A := e.accts
+	var out []scenario
+	add := func(id string, c common.Address, m, kind, owner string, free bool, args func(common.Address) []byte) {
+		out = append(out, scenario{ID: id, Contract: c, Method: m, Kind: kind, Owner: owner, Free: free, Args: args, Height: 10})
+	}
+	fixed := func(b []byte) func(common.Address) []byte { return func(common.Address) []byte { return b } }
+	// ---- node_manager
+	add("NodeManagerContractAddress.registerCandidate", NM, node_manager.REGISTER_CANDIDATE, "owner", "O1", true, func(o common.Address) []byte {
+		return ser(func(s *common.ZeroCopySink) {
+			(&node_manager.RegisterPeerParam{PeerPubkey: A["C1"].PubHex, Address: o}).Serialization(s)
+		})
+	})
+	add("NodeManagerContractAddress.unRegisterCandidate", NM, node_manager.UNREGISTER_CANDIDATE, "owner", "C2", false, func(o common.Address) []byte { return peerArgs(A["C2"].PubHex, o) })
+	add("NodeManagerContractAddress.approveCandidate", NM, node_manager.APPROVE_CANDIDATE, "owner", "O1", true, func(o common.Address) []byte { return peerArgs(A["C2"].PubHex, o) })
+	add("NodeManagerContractAddress.quitNode", NM, node_manager.QUIT_NODE, "owner", "C3", false, func(o common.Address) []byte { return peerArgs(A["C3"].PubHex, o) })
+	add("NodeManagerContractAddress.blackNode", NM, node_manager.BLACK_NODE, "owner", "O1", true, func(o common.Address) []byte {
+		return ser(func(s *common.ZeroCopySink) {
+			(&node_manager.PeerListParam{PeerPubkeyList: []string{A["C3"].PubHex}, Address: o}).Serialization(s)
+		})
+	})
+	add("NodeManagerContractAddress.whiteNode", NM, node_manager.WHITE_NODE, "owner", "O1", true, func(o common.Address) []byte { return peerArgs(A["C4"].PubHex, o) })
+	add("NodeManagerContractAddress.updateConfig", NM, node_manager.UPDATE_CONFIG, "operator", "", false, fixed(ser(func(s *common.ZeroCopySink) {
+		(&node_manager.UpdateConfigParam{Configuration: &node_manager.Configuration{BlockMsgDelay: 6000, HashMsgDelay: 6000, PeerHandshakeTimeout: 11, MaxBlockChangeView: 20000}}).Serialization(s)
+	})))
+	// commitDpos: genesis view height 0, MaxBlockChangeView 1000 -> due at height 1000
+	for _, c := range []struct {
+		tag  string
+		h    uint32
+		kind string
+	}{{"early", 10, "operator"}, {"boundary-1", 999, "operator"}, {"boundary", 1000, "open"}, {"boundary+1", 1001, "open"}} {
+		out = append(out, scenario{ID: "NodeManagerContractAddress.commitDpos#" + c.tag, Contract: NM, Method: node_manager.COMMIT_DPOS, Kind: c.kind, Args: fixed(nil), Height: c.h})
+	}
+	// ---- side_chain_manager
+	add("SideChainManagerContractAddress.registerSideChain", SCM, side_chain_manager.REGISTER_SIDE_CHAIN, "owner", "O1", true, func(o common.Address) []byte { return e.sideChainArgs(o, chNew, utils.ETH_ROUTER, nil) })
+	add("SideChainManagerContractAddress.approveRegisterSideChain", SCM, side_chain_manager.APPROVE_REGISTER_SIDE_CHAIN, "owner", "O1", true, func(o common.Address) []byte { return chainidArgs(chPending, o) })
+	add("SideChainManagerContractAddress.updateSideChain", SCM, side_chain_manager.UPDATE_SIDE_CHAIN, "owner", "O1", false, func(o common.Address) []byte { return e.sideChainArgs(o, chUpdate, utils.ETH_ROUTER, []byte{2}) })
+	add("SideChainManagerContractAddress.approveUpdateSideChain", SCM, side_chain_manager.APPROVE_UPDATE_SIDE_CHAIN, "owner", "O1", true, func(o common.Address) []byte { return chainidArgs(chUpdReq, o) })
+	add("SideChainManagerContractAddress.quitSideChain", SCM, side_chain_manager.QUIT_SIDE_CHAIN, "owner", "O1", false, func(o common.Address) []byte { return chainidArgs(chQuit, o) })
+	add("SideChainManagerContractAddress.approveQuitSideChain", SCM, side_chain_manager.APPROVE_QUIT_SIDE_CHAIN, "owner", "O1", true, func(o common.Address) []byte { return chainidArgs(chQuitReq, o) })
+	add("SideChainManagerContractAddress.registerAsset", SCM, side_chain_manager.REGISTER_ASSET, "owner", "O1", false, func(o common.Address) []byte {
+		return ser(func(s *common.ZeroCopySink) {
+			(&side_chain_manager.RegisterAssetParam{OperatorAddress: o, ChainId: chRipple, AssetMap: map[uint64][]byte{chFee: {1}}, LockProxyMap: map[uint64][]byte{chFee: {2}}}).Serialization(s)
+		})
+	})
+	add("SideChainManagerContractAddress.updateFee", SCM, side_chain_manager.UPDATE_FEE, "owner", "V1", false, func(o common.Address) []byte {
+		return ser(func(s *common.ZeroCopySink) {
+			(&side_chain_manager.UpdateFeeParam{Address: o, ChainId: chFee, View: 0, Fee: big.NewInt(7)}).Serialization(s)
+		})
+	})
+	// ---- relayer_manager
+	rl := func(o common.Address) []byte {
+		return ser(func(s *common.ZeroCopySink) {
+			(&relayer_manager.RelayerListParam{AddressList: []common.Address{A["R2"].Addr}, Address: o}).Serialization(s)
+		})
+	}
+	ap := func(o common.Address) []byte {
+		return ser(func(s *common.ZeroCopySink) { (&relayer_manager.ApproveRelayerParam{ID: 0, Address: o}).Serialization(s) })
+	}
+	add("RelayerManagerContractAddress.registerRelayer", RM, relayer_manager.REGISTER_RELAYER, "owner", "O1", true, rl)
+	add("RelayerManagerContractAddress.RemoveRelayer", RM, relayer_manager.REMOVE_RELAYER, "owner", "O1", true, rl)
+	add("RelayerManagerContractAddress.approveRegisterRelayer", RM, relayer_manager.APPROVE_REGISTER_RELAYER, "owner", "O1", true, ap)
+	add("RelayerManagerContractAddress.approveRemoveRelayer", RM, relayer_manager.APPROVE_REMOVE_RELAYER, "owner", "O1", true, ap)
+	// ---- neo3_state_manager
+	svl := func(o common.Address) []byte {
+		return ser(func(s *common.ZeroCopySink) {
+			(&neo3_state_manager.StateValidatorListParam{StateValidators: []string{"03" + strings.Repeat("22", 32)}, Address: o}).Serialization(s)
+		})
+	}
+	sva := func(o common.Address) []byte {
+		return ser(func(s *common.ZeroCopySink) {
+			(&neo3_state_manager.ApproveStateValidatorParam{ID: 0, Address: o}).Serialization(s)
+		})
+	}
+	add("Neo3StateManagerContractAddress.registerStateValidator", SVM, neo3_state_manager.REGISTER_STATE_VALIDATOR, "owner", "O1", true, svl)
+	add("Neo3StateManagerContractAddress.removeStateValidator", SVM, neo3_state_manager.REMOVE_STATE_VALIDATOR, "owner", "O1", true, svl)
+	add("Neo3StateManagerContractAddress.approveRegisterStateValidator", SVM, neo3_state_manager.APPROVE_REGISTER_STATE_VALIDATOR, "owner", "O1", true, sva)
+	add("Neo3StateManagerContractAddress.approveRemoveStateValidator", SVM, neo3_state_manager.APPROVE_REMOVE_STATE_VALIDATOR, "owner", "O1", true, sva)
+	// ---- signature_manager
+	add("SignatureManagerContractAddress.addSignature", SM, signature_manager.ADD_SIGNATURE, "owner", "V1", false, func(o common.Address) []byte {
+		return ser(func(s *common.ZeroCopySink) {
+			(&signature_manager.AddSignatureParam{Address: o, SideChainID: chFee, Subject: []byte("subject"), Signature: []byte{1, 2}}).Serialization(s)
+		})
+	})
+	// ---- cross_chain_manager
+	bc := fixed(ser(func(s *common.ZeroCopySink) { (&ccmcom.BlackChainParam{ChainID: chFee}).Serialization(s) }))
+	add("CrossChainManagerContractAddress.BlackChain", CCM, ccmcom.BLACK_CHAIN, "operator", "", false, bc)
+	add("CrossChainManagerContractAddress.WhiteChain", CCM, ccmcom.WHITE_CHAIN, "operator", "", false, bc)
+	imp := func(chain uint64) func(common.Address) []byte {
+		return func(o common.Address) []byte {
+			return ser(func(s *common.ZeroCopySink) {
+				(&ccmcom.EntranceParam{SourceChainID: chain, Height: 1, RelayerAddress: o[:], Extra: []byte{1, 2, 3}}).Serialization(s)
+			})
+		}
+	}
+	add("CrossChainManagerContractAddress.ImportOuterTransfer@consensus_vote", CCM, ccmcom.IMPORT_OUTER_TRANSFER_NAME, "owner", "V1", false, imp(chVote))
+	add("CrossChainManagerContractAddress.ImportOuterTransfer@ripple", CCM, ccmcom.IMPORT_OUTER_TRANSFER_NAME, "owner", "V1", false, imp(chRipple))
+	// ---- header_sync: SyncGenesisHeader of every router
+	for _, rs := range e.routes {
+		if rs.Genesis == nil {
+			continue
+		}
+		g := rs.Genesis()
+		id := rs.ChainID
+		add("HeaderSyncContractAddress.syncGenesisHeader@"+rs.Name, HS, hscommon.SYNC_GENESIS_HEADER, "operator", "", false, fixed(ser(func(s *common.ZeroCopySink) {
+			(&hscommon.SyncGenesisHeaderParam{ChainID: id, GenesisHeader: g}).Serialization(s)
+		})))
+	}
+	return out
+}
+
+// ---------------------------------------------------------------------------------------------------------------
+// signer atoms
+
+type atom struct {
+	Name   string
+	Signer polyenv.Signer
+	Addr   common.Address // derived here, independently of the transaction code: what this entry witnesses
+}
+
+func entryAddr(s polyenv.Signer) common.Address {
+	if len(s.Keys) == 1 {
+		return types.AddressFromPubKey(s.Keys[0].Pub)
+	}
+	a, err := types.AddressFromMultiPubKeys(polyenv.Pubs(s.Keys), int(s.M))
+	if err != nil {
+		panic(err)
+	}
+	return a
+}
+
+func mkAtom(name string, s polyenv.Signer) atom {
+	s.Sign = true
+	return atom{name, s, entryAddr(s)}
+}
+
+func subsets(n, max int) [][]int {
+	var out [][]int
+	var rec func(start int, cur []int)
+	rec = func(start int, cur []int) {
+		out = append(out, append([]int{}, cur...))
+		if len(cur) == max {
+			return
+		}
+		for i := start; i < n; i++ {
+			rec(i+1, append(cur, i))
+		}
+	}
+	rec(0, nil)
+	return out
+}
+
+func rejectedByWitness(err error) bool {
+	if err == nil {
+		return false
+	}
+	s := err.Error()
+	return strings.Contains(s, "checkWitness") || strings.Contains(s, "authentication") || strings.Contains(s, "validateOwner")
+}
+
+type runner struct {
+	e          *env
+	r          *ev.Run
+	perRouter  map[string]map[string]any
+	perScen    map[string]map[string]int
+	maxSubset  int
+	execs, adm int
+}
+
+func (x *runner) count(id, class string) {
+	if x.perScen[id] == nil {
+		x.perScen[id] = map[string]int{}
+	}
+	x.perScen[id][class]++
+}
+
+// execBoth: admission check, then execution of the verified object and of the re-decoded transaction on two copies of the
+// snapshot. Returns (admitted, ok, err).
+func (x *runner) execBoth(d polyenv.Dump, tx *types.Transaction, h uint32, what string) (bool, bool, error) {
+	x.adm++
+	if code := validation.VerifyTransaction(tx); code != ontErrors.ErrNoError {
+		return false, false, fmt.Errorf("VerifyTransaction: %v", code)
+	}
+	w1 := mapworld.NewFrom(d)
+	r1 := w1.Exec(tx, h, ts)
+	sink := common.NewZeroCopySink(nil)
+	if err := tx.Serialization(sink); err != nil {
+		panic(err)
+	}
+	tx2, err := types.TransactionFromRawBytes(sink.Bytes())
+	if err != nil {
+		panic(err)
+	}
+	w2 := mapworld.NewFrom(d)
+	r2 := w2.Exec(tx2, h, ts)
+	x.execs += 2
+	x.r.Eval()
+	if r1.Panic != nil || r2.Panic != nil {
+		x.r.Class("panic")
+	}
+	if r1.OK != r2.OK || w1.Dump().String() != w2.Dump().String() {
+		x.r.Violation("witness:verified-object-and-redecoded-transaction-disagree", map[string]any{"case": what, "verified_object": fmt.Sprint(r1.Err), "redecoded": fmt.Sprint(r2.Err)})
+	}
+	return true, r2.OK, r2.Err
+}
+
+func names(as []atom, idx []int) []string {
+	out := []string{}
+	for _, i := range idx {
+		out = append(out, as[i].Name)
+	}
+	return out
+}
+
+// runScenario enumerates the signer subsets for one scenario on snapshot d with the given operator (consensus) set.
+func (x *runner) runScenario(sc scenario, d polyenv.Dump, cons []*polyenv.Acct, world string, stale *polyenv.Signer) {
+	e, r := x.e, x.r
+	owner := e.accts["O1"]
+	if sc.Owner != "" {
+		owner = e.accts[sc.Owner]
+	}
+	val := e.vals[0]
+	if owner == val {
+		val = e.vals[2]
+	}
+	atoms := []atom{
+		mkAtom("operator", polyenv.Multi(cons)),
+		mkAtom("operator-keys-m=1", polyenv.Signer{Keys: cons, M: 1}),
+		mkAtom("validator-subset", polyenv.Multi(cons[:len(cons)-1])),
+		mkAtom("owner", polyenv.Single(owner)),
+		mkAtom("validator", polyenv.Single(val)),
+		mkAtom("unrelated", polyenv.Single(e.accts["U"])),
+	}
+	if x.maxSubset > 3 { // thorough: one more wrong-m variant and a second validator
+		atoms = append(atoms, mkAtom("operator-keys-m=n", polyenv.Signer{Keys: cons, M: uint16(len(cons))}), mkAtom("validator2", polyenv.Single(e.vals[3])))
+	}
+	if stale != nil {
+		atoms = append(atoms, mkAtom("stale-operator", *stale))
+	}
+	var required common.Address
+	reqName := ""
+	switch sc.Kind {
+	case "operator":
+		required, reqName = atoms[0].Addr, "operator"
+	case "owner":
+		required, reqName = owner.Addr, "owner"
+	}
+	args := sc.Args(owner.Addr)
+	id := sc.ID + "|" + world
+	canonicalOK := false
+	var canonErr error
+	for _, sub := range subsets(len(atoms), x.maxSubset) {
+		var signers []polyenv.Signer
+		addrs := map[common.Address]bool{}
+		for _, i := range sub {
+			signers = append(signers, atoms[i].Signer)
+			addrs[atoms[i].Addr] = true
+		}
+		tx := e.tx(sc.Contract, sc.Method, args, signers...)
+		what := fmt.Sprintf("%s signers=%v", id, names(atoms, sub))
+		admitted, ok, err := x.execBoth(d, tx, sc.Height, what)
+		if !admitted {
+			r.HarnessError("validly signed transaction not admitted: %s: %v", what, err)
+		}
+		has := sc.Kind == "open" || addrs[required]
+		r.Case(fmt.Sprintf("%s/%s/has=%v/ok=%v", sc.Kind, sc.Method, has, ok))
+		switch {
+		case ok && !has:
+			r.Class("VIOLATING-accept")
+			x.count(id, "accepted_without_witness")
+			r.Violation(sc.ID+":accepted-without-"+reqName+"-witness", map[string]any{"scenario": sc.ID, "world": world, "contract": sc.Contract.ToHexString(),
+				"method": sc.Method, "args_hex": hex.EncodeToString(args), "height": sc.Height, "signers": names(atoms, sub), "required": reqName,
+				"required_address": required.ToBase58()})
+		case ok:
+			r.Class("accept_with_witness")
+			x.count(id, "accepted_with_witness")
+			if len(sub) == 1 || sc.Kind == "open" {
+				canonicalOK = true
+			}
+		case has:
+			if len(sub) == 1 {
+				canonErr = err
+			}
+			r.Class("reject_although_witnessed") // allowed by the implication (never expected here: the world is seeded)
+			x.count(id, "rejected_although_witnessed")
+			r.Note("stricter:"+id, fmt.Sprintf("signers=%v: %v", names(atoms, sub), err))
+		default:
+			if rejectedByWitness(err) {
+				r.Class("reject_by_witness_check")
+				x.count(id, "rejected_by_witness_check")
+			} else {
+				r.Class("reject_other")
+				x.count(id, "rejected_other:"+short(err))
+			}
+		}
+		if sc.Kind == "open" && len(sub) == 1 && atoms[sub[0]].Name == "unrelated" && ok {
+			r.Class("commit_open_after_timeout")
+		}
+	}
+	if !canonicalOK {
+		r.HarnessError("scenario %s: the canonical signer set (%s alone) does not succeed — the seeded state is wrong: %v", id, reqName, canonErr)
+	}
+	r.Class("scenario_done")
+}
+
+func short(err error) string {
+	if err == nil {
+		return "ok"
+	}
+	s := err.Error()
+	s = strings.TrimPrefix(s, "[Invoke] Native serivce function execute error:")
+	if len(s) > 70 {
+		s = s[:70]
+	}
+	return s
+}
+
+// invalidSignatures: variants of the canonical transaction whose signatures do not verify must die at admission.
+func (x *runner) invalidSignatures(sc scenario, cons []*polyenv.Acct) {
+	e, r := x.e, x.r
+	owner := e.accts["O1"]
+	if sc.Owner != "" {
+		owner = e.accts[sc.Owner]
+	}
+	u, u2 := e.accts["U"], e.accts["U2"]
+	op := polyenv.Multi(cons)
+	m := int(op.M)
+	var variants []struct {
+		name string
+		s    polyenv.Signer
+	}
+	add := func(n string, s polyenv.Signer) {
+		variants = append(variants, struct {
+			name string
+			s    polyenv.Signer
+		}{n, s})
+	}
+	if sc.Kind == "operator" {
+		others := []*polyenv.Acct{u, u2, e.accts["O1"], e.accts["C1"], e.accts["C2"]}
+		add("operator-entry-signed-by-outsiders", polyenv.Signer{Keys: cons, M: op.M, SignWith: others[:m]})
+		add("operator-entry-with-m-1-signatures", polyenv.Signer{Keys: cons, M: op.M, SignWith: cons[:m-1]})
+		dup := make([]*polyenv.Acct, m)
+		for i := range dup {
+			dup[i] = cons[0]
+		}
+		add("operator-entry-one-validator-signing-m-times", polyenv.Signer{Keys: cons, M: op.M, SignWith: dup})
+		add("operator-entry-without-signatures", polyenv.Signer{Keys: cons, M: op.M, SignWith: []*polyenv.Acct{}})
+	} else {
+		add("owner-entry-signed-by-other-key", polyenv.Signer{Keys: []*polyenv.Acct{owner}, M: 1, SignWith: []*polyenv.Acct{u}})
+		add("owner-entry-without-signature", polyenv.Signer{Keys: []*polyenv.Acct{owner}, M: 1, SignWith: []*polyenv.Acct{}})
+	}
+	args := sc.Args(owner.Addr)
+	check := func(name string, tx *types.Transaction) {
+		x.adm++
+		r.Eval()
+		if code := validation.VerifyTransaction(tx); code == ontErrors.ErrNoError {
+			r.Violation("admission:invalid-signature-variant-admitted:"+name, map[string]any{"scenario": sc.ID, "variant": name})
+			r.Class("VIOLATING-admitted")
+		} else {
+			r.Class("died_at_verify")
+		}
+	}
+	for _, v := range variants {
+		check(v.name, e.tx(sc.Contract, sc.Method, args, v.s))
+	}
+	// signatures of ANOTHER transaction (same signer entry, different nonce) transplanted
+	canon := polyenv.Single(owner)
+	if sc.Kind == "operator" {
+		canon = op
+	}
+	canon.Sign = true
+	a := e.tx(sc.Contract, sc.Method, args, canon)
+	b := e.tx(sc.Contract, sc.Method, args, canon)
+	t := &types.Transaction{Version: b.Version, TxType: b.TxType, Nonce: b.Nonce, ChainID: b.ChainID, Payload: b.Payload, Attributes: b.Attributes, Sigs: a.Sigs}
+	sink := common.NewZeroCopySink(nil)
+	if err := t.Serialization(sink); err != nil {
+		panic(err)
+	}
+	t2, err := types.TransactionFromRawBytes(sink.Bytes())
+	if err != nil {
+		panic(err)
+	}
+	check("signatures-of-another-transaction", t2)
+}
+
+func main() {
+	r := ev.Start("C18", "model_checking")
+	r.Require("accept_with_witness", "reject_by_witness_check", "died_at_verify", "scenario_done", "calling_contract_accepted",
+		"calling_contract_rejected", "commit_open_after_timeout")
+	vals := polyenv.Keys(4)
+	polyenv.Setup(0, vals)
+	polyenv.InstallHeightLedger()
+	e := &env{r: r, vals: vals, accts: map[string]*polyenv.Acct{}, routes: routerSpecs()}
+	for i, n := range []string{"C1", "C2", "C3", "C4", "C5"} {
+		e.accts[n] = polyenv.Key(20 + i)
+	}
+	for i, n := range []string{"O1", "U", "U2", "R1", "R2"} {
+		e.accts[n] = polyenv.Key(40 + i)
+	}
+	for i, v := range vals {
+		e.accts[fmt.Sprintf("V%d", i)] = v
+	}
+	installProbes()
+
+	// ---- 1. static table
+	rows, hsRouters := scanPrivileged()
+	if len(rows) < 40 {
+		r.HarnessError("static scan implausible: %d rows", len(rows))
+	}
+	e.seed()
+	scens := e.scenarios()
+	covered := map[string]bool{}
+	for _, s := range scens {
+		covered[strings.SplitN(s.ID, "#", 2)[0]] = true
+	}
+	outOfReach := map[string]string{}
+	for _, rs := range e.routes {
+		if rs.Genesis == nil {
+			outOfReach["HeaderSyncContractAddress.syncGenesisHeader@"+rs.Name] = rs.Note
+		}
+	}
+	var table []map[string]any
+	for _, row := range rows {
+		st := "covered"
+		if !covered[row.ID()] {
+			if why, ok := outOfReach[row.ID()]; ok {
+				st = "out_of_reach: " + why
+			} else {
+				r.HarnessError("privileged method found in the code but not in the scenario table: %s (handler %s, witness calls %v)", row.ID(), row.Handler, row.Sinks)
+			}
+		}
+		table = append(table, map[string]any{"id": row.ID(), "handler": row.Handler, "witness_calls_found": row.Sinks, "status": st})
+	}
+	rowIDs := map[string]bool{}
+	for _, row := range rows {
+		rowIDs[row.ID()] = true
+	}
+	for id := range covered {
+		if !rowIDs[id] {
+			r.HarnessError("scenario %s has no row in the table extracted from the code (renamed / removed method?)", id)
+		}
+	}
+	r.Note("privileged_methods_from_code", table)
+	r.Note("header_sync_routers", hsRouters)
+
+	// ---- 2./3. signer subsets
+	x := &runner{e: e, r: r, perRouter: map[string]map[string]any{}, perScen: map[string]map[string]int{}, maxSubset: r.QT(3, 4)}
+	if msg := selfCheck(e); msg != "" {
+		r.HarnessError("mapworld differs from polyenv.World: %s", msg)
+	}
+	stale := polyenv.Multi(e.vals)
+	for _, sc := range scens {
+		if r.Expired() {
+			r.Capped("scenarios after " + sc.ID)
+			break
+		}
+		x.runScenario(sc, e.base, e.vals, "epoch1", nil)
+		if sc.Kind == "operator" && !strings.Contains(sc.ID, "commitDpos") {
+			x.runScenario(sc, e.epoch2, e.cons2, "epoch2", &stale)
+		}
+		if sc.Kind != "open" {
+			x.invalidSignatures(sc, e.vals)
+		}
+		if sc.Kind == "owner" {
+			x.callingContract(sc)
+		}
+	}
+	x.emptyAddress(scens)
+	// per-router summary
+	var routerRows []map[string]any
+	for _, rs := range e.routes {
+		id := "HeaderSyncContractAddress.syncGenesisHeader@" + rs.Name + "|epoch1"
+		row := map[string]any{"router": rs.Name, "router_id": rs.Router}
+		if rs.Genesis == nil {
+			row["status"] = "out of reach: " + rs.Note
+		} else {
+			c := x.perScen[id]
+			row["accepted_with_operator"] = c["accepted_with_witness"]
+			row["rejected_by_witness_check"] = c["rejected_by_witness_check"]
+			row["accepted_without_operator"] = c["accepted_without_witness"]
+			row["witness_check_reached"] = c["rejected_by_witness_check"] > 0
+		}
+		routerRows = append(routerRows, row)
+	}
+	r.Note("syncGenesisHeader_per_router", routerRows)
+	keys := make([]string, 0, len(x.perScen))
+	for k := range x.perScen {
+		keys = append(keys, k)
+	}
+	sort.Strings(keys)
+	ps := map[string]any{}
+	for _, k := range keys {
+		ps[k] = x.perScen[k]
+	}
+	r.Note("per_scenario", ps)
+	r.Assume("a transaction reaches execution only after core/validation.VerifyTransaction accepted it (pool admission / block verification); block execution itself derives the witness addresses from the listed public keys",
+		"one seeded world (4 genesis validators; after the epoch change 6 consensus members); the named owner is O1, a fixed record owner, or validator V1 where the method requires a consensus member")
+	if os.Getenv("C18_VERBOSE") != "" {
+		for _, k := range keys {
+			fmt.Println(k, x.perScen[k])
+		}
+	}
+	r.Finish(map[string]any{
+		"rule":                          "for every privileged method found in the code, every signer subset (<= bound) of the atom set: success => required address (operator of the current consensus set / named owner) is among the addresses of the signer entries, or is the immediately calling contract",
+		"scenarios":                     len(scens),
+		"max_signer_subset":             x.maxSubset,
+		"states":                        2,
+		"transitions":                   x.execs,
+		"traces_validated_against_impl": x.execs,
+		"admission_checks":              x.adm,
+		"max_depth":                     1,
+	})
 }
